@@ -43,7 +43,8 @@ TNew == /\ Ev.e = "NewLogger"
         /\ UNCHANGED <<stack, pool, lay, obs>>
         /\ nc' = (nc \/ ~NewLogger(ToSet(Ev.fields)))
 
-TraceNext == Step /\ (TWrite \/ TRead \/ TPool \/ TNew)
+TRename == Ev.e = "Rename" /\ Rename(Ev.layer) /\ xrecs' = <<>> /\ UNCHANGED nc
+TraceNext == Step /\ (TWrite \/ TRead \/ TPool \/ TNew \/ TRename)
 TraceSpec == TraceInit /\ [][TraceNext]_tvars
 
 \* record clauses evaluated on the observed fields
